@@ -15,6 +15,8 @@ import (
 	"log"
 	"log/slog"
 	"math/rand"
+	"net"
+	"net/http"
 	"os"
 	"os/exec"
 	"path/filepath"
@@ -127,10 +129,44 @@ type hostDirs struct {
 	root string
 	host render.Host
 	cwds []string
+	srv  *schemaServer
+}
+
+// schemaServer is a loopback HTTP listener a values schema could be tempted to fetch a "$ref" from: it counts
+// the requests it gets and answers with whatever the canary file outside the chart currently says.
+type schemaServer struct {
+	mu   sync.Mutex
+	hits int
+	kind string
+}
+
+func (s *schemaServer) ServeHTTP(w http.ResponseWriter, _ *http.Request) {
+	s.mu.Lock()
+	s.hits++
+	kind := s.kind
+	s.mu.Unlock()
+	switch kind {
+	case "str":
+		w.Write([]byte(`{"$defs":{"x":{"type":"string"}}}`))
+	case "int":
+		w.Write([]byte(`{"$defs":{"x":{"type":"integer"}}}`))
+	default:
+		http.NotFound(w, nil)
+	}
+}
+
+func (s *schemaServer) Hits() int {
+	s.mu.Lock()
+	defer s.mu.Unlock()
+	return s.hits
 }
 
 func setupHost(root string) hostDirs {
-	h := hostDirs{root: root, host: render.Host{CanaryDir: filepath.Join(root, "outside")}}
+	h := hostDirs{root: root, host: render.Host{CanaryDir: filepath.Join(root, "outside")}, srv: &schemaServer{kind: "absent"}}
+	if ln, err := net.Listen("tcp", "127.0.0.1:0"); err == nil {
+		h.host.HTTPBase = "http://" + ln.Addr().String()
+		go http.Serve(ln, h.srv)
+	}
 	must(os.MkdirAll(h.host.CanaryDir, 0o755))
 	for _, w := range []string{"w0", "w1", "w2"} {
 		d := filepath.Join(root, w, "a", "b")
@@ -151,6 +187,9 @@ func (h hostDirs) setCanary(content string) {
 }
 
 func (h hostDirs) setDefs(kind string) {
+	h.srv.mu.Lock()
+	h.srv.kind = kind
+	h.srv.mu.Unlock()
 	switch kind {
 	case "absent":
 		os.Remove(h.host.CanaryDefs())
@@ -214,6 +253,7 @@ func cmdRender(args []string) {
 	workers := fs.Int("workers", runtime.NumCPU(), "")
 	block := fs.Int("block", 4000, "cases per block (memory)")
 	reuse := fs.Int("reuse", 0, "renders that reuse one loaded chart object (sequential; concurrent = -m)")
+	caps := fs.Int("caps", 0, "rounds of overlapping renders with one --api-versions entry each (charts that consult .Capabilities; 0 = off)")
 	route := fs.Bool("route", false, "also render through a Configuration with a cluster connection (--dry-run=server)")
 	fs.Parse(args)
 	inAbs, _ := filepath.Abs(*in)
@@ -245,7 +285,7 @@ func cmdRender(args []string) {
 		if end > len(lines) {
 			end = len(lines)
 		}
-		for _, ol := range renderBlock(lines[start:end], start, hd, root, pl, *seed, *workers, *children, *uninst, *disk, *eng, *reuse, *route) {
+		for _, ol := range renderBlock(lines[start:end], start, hd, root, pl, *seed, *workers, *children, *uninst, *disk, *eng, *reuse, *route, *caps) {
 			must(enc.Encode(ol))
 		}
 	}
@@ -253,7 +293,7 @@ func cmdRender(args []string) {
 	f.Close()
 }
 
-func renderBlock(lines []render.CaseLine, offset int, hd hostDirs, root string, pl render.Plan, seed int64, workers, children, uninst int, disk, eng bool, reuse int, route bool) []render.ObsLine {
+func renderBlock(lines []render.CaseLine, offset int, hd hostDirs, root string, pl render.Plan, seed int64, workers, children, uninst int, disk, eng bool, reuse int, route bool, caps int) []render.ObsLine {
 	hd.setCanary("CANARY-A")
 	hd.setDefs("absent")
 	refined := make([]render.CaseLine, len(lines))
@@ -292,6 +332,9 @@ func renderBlock(lines []render.CaseLine, offset int, hd hostDirs, root string, 
 		if route {
 			render.ObserveRoute(accs[i], mat, seed)
 		}
+		if caps > 0 {
+			render.ObserveCaps(accs[i], mat, caps, 8, seed)
+		}
 		if uninst > 0 && cl.Case.Fam == "part" && (offset+i)%uninst == 0 {
 			kinds, err := render.ObserveUninstall(mat)
 			if err != nil { // an observation, not a harness failure: the real install / uninstall refused the rendered manifest
@@ -315,6 +358,7 @@ func renderBlock(lines []render.CaseLine, offset int, hd hostDirs, root string, 
 		if cl.Case.Fam != "schema" {
 			continue
 		}
+		hits0 := hd.srv.Hits()
 		for _, st := range []string{"absent", "str", "int", "absent", "int", "str"} {
 			hd.setDefs(st)
 			for k := 0; k < 2; k++ {
@@ -325,7 +369,9 @@ func renderBlock(lines []render.CaseLine, offset int, hd hostDirs, root string, 
 				}
 			}
 		}
+		accs[i].HTTPHits = hd.srv.Hits() - hits0
 	}
+	// (accs[i].HTTPHits is set per case below)
 	hd.setDefs("absent")
 
 	// phases 2..: child processes with another environment, working directory and canary content
